@@ -163,6 +163,29 @@ def main(ck, tier, w):
     ck.cov['worker_threads_observed'] = len(workers)
     ck.sample({'evaluation_orders_observed': [list(o) for o in list(orders)[:3]], 'threads_seen': workers[:20]})
 
+    # ---- an index that does not determine the tip (several usable tips of equal height and validity): whatever chain is
+    # chosen, it must be the same one in every run
+    from checks import c04
+    for ntips in (2, 4):
+        recs = [{'id': 0, 'h': 0, 'prev': -1, 'data': True, 'valid': 5, 'failed': False}, {'id': 1, 'h': 1, 'prev': 0, 'data': True, 'valid': 5, 'failed': False}]
+        recs += [{'id': 2 + k, 'h': 2, 'prev': 1, 'data': True, 'valid': 3, 'failed': False} for k in range(ntips)]
+        td, tblocks = c04.build_index(w, {'recs': recs, 'tip': 2, 'active': [0, 1, 2]}, 0)
+        outs = []
+
+        def rerun(i):
+            dd = w.sub('cl')
+            shutil.copytree(td.path, dd)
+            r = run.run_parser(dd, 'csvdump', dump=w.mk('out'), threads=[1, 4, 16][i % 3])
+            shutil.rmtree(dd, ignore_errors=True)
+            return r
+        rs = chains.pmap(rerun, range(12 if quick else 40), 6)
+        ck.evals(len(rs))
+        ck.distinct(('tied-tips', ntips))
+        variants = {tuple(sorted((k, v) for k, v in r.files.items())) for r in rs if r.rc == 0}
+        if any(r.rc != 0 for r in rs) or len(variants) != 1:
+            ck.violation('%d runs over one data directory whose index has %d equally good tips gave %d different results' % (len(rs), ntips, len(variants)),
+                         {'records': recs, 'distinct_outputs': len(variants), 'exit_codes': sorted({r.rc for r in rs}), 'tags': []})
+
     # ---- dump folder pre-states and repeated runs on one data directory ------------------------------
     blocks2 = chains.std_chain(6, coin)
     dd = datadir.simple_dir(w.sub('dd'), blocks2, coin).write()
